@@ -1,4 +1,5 @@
 import WindVerif.Model.Records
+import WindVerif.Model.Json
 import WindVerif.Drv.Common
 import WindVerif.Drv.LineFile
 namespace WindVerif.Drv
@@ -23,6 +24,26 @@ def recordsStep (io : SIO) (ws : List String) : SIO × String :=
   -- whole-record round trips that go through library conversions (json, int/float fields) and through record files:
   -- the model predicts success (theorems json_glue, csv_roundtrip*, C12's list semantics); the harness runs the real code
   | "json" :: _ => (io, "ok")
+  -- the modelled `json` module (Model/Json.lean) against the real one.
+  -- `jenc <x-text T>`: T is a textual form of a JSON value — any JSON text `json.loads` accepts for it (say
+  --   `json.dumps(v, ensure_ascii=False, indent=1)`: raw non-ASCII characters, extra whitespace, floats as `repr` writes
+  --   them); answer `ret <x-text of encode v>` to compare with `json.dumps(v, separators=(',', ':'))`, or `err` when T is
+  --   not accepted by the model's `decode`.
+  -- `jdec <x-text>`: `json.loads(text)`; answer `err` (JSONDecodeError, or outside the modelled domain: lone surrogates,
+  --   NaN/Infinity) or `ret <x-text of encode v> floats <x-lexeme>…`: the compact dump of the decoded value, then its float
+  --   lexemes exactly as written in the text, in order of occurrence in the dump (Python re-emits floats through `repr`, the
+  --   model keeps the lexeme: compare the dumps with each float masked, and `float(lexeme)` with Python's floats).
+  | ["jenc", t] => match decodeStr t with
+    | some t => (match WindVerif.Json.decode t with
+      | some v => (io, "ret " ++ encodeStr (WindVerif.Json.encode v))
+      | none => (io, "err"))
+    | none => (io, "bad-op")
+  | ["jdec", t] => match decodeStr t with
+    | some t => (match WindVerif.Json.decode t with
+      | some v => (io, joinWith " " ("ret" :: encodeStr (WindVerif.Json.encode v) :: "floats" ::
+          (WindVerif.Json.floatsOf v).map encodeStr))
+      | none => (io, "err"))
+    | none => (io, "bad-op")
   | "typed" :: _ => (io, "ok")
   | "recfile" :: _ => (io, "ok")
   | _ => (io, "bad-op")
